@@ -60,10 +60,18 @@ mod varlink_grammar;
 
 #[derive(Debug, thiserror::Error)]
 pub enum Error {
-    #[error("Varlink parse error\n{line}\n{marker:>column$}", marker = "^")]
+    #[error("Varlink parse error\n{line}\n{}", caret(*column))]
     Parse { line: String, column: usize },
     #[error("Interface definition error: {0}")]
     Idl(String),
+}
+
+/// The marker line below the offending line: `^` in column `column`. (A format width would do for
+/// short lines only: width arguments are limited to 16 bits.)
+fn caret(column: usize) -> String {
+    let mut s = " ".repeat(column.saturating_sub(1));
+    s.push('^');
+    s
 }
 
 pub enum VType<'a> {
